@@ -323,15 +323,23 @@ func (p *Prog) LookupMethod(pkgPath, typ, name string) (*ssa.Function, error) {
 	if err != nil {
 		return nil, err
 	}
+	var fallback *ssa.Function
 	for _, T := range []types.Type{types.NewPointer(n), n} {
 		sel := p.SSA.MethodSets.MethodSet(T).Lookup(n.Obj().Pkg(), name)
 		if sel != nil {
 			f := p.SSA.MethodValue(sel)
 			if f != nil {
-				// unwrap promoted-method wrappers to report the declared method
-				return f, nil
+				if f.Synthetic == "" {
+					return f, nil // the declared method, not a pointer-receiver/promotion wrapper
+				}
+				if fallback == nil {
+					fallback = f
+				}
 			}
 		}
+	}
+	if fallback != nil {
+		return fallback, nil
 	}
 	return nil, &AnchorError{fmt.Sprintf("method (%s.%s).%s", pkgPath, typ, name)}
 }
